@@ -10,3 +10,4 @@ CONSTANTS
   Resizes <- ReflowResizes
   MaxDepth = 3
   Emit = TRUE
+  CheckDump = FALSE
